@@ -242,3 +242,35 @@ def _closed(f, edges):
         if not grew:
             break
     return out
+
+
+@rule("C18.R4", floor=1)
+def c18_r4(ctx):
+    """A rule's remembered file states leave the table while the rule is being worked on: the
+    states handed out with a blob are *removed* from the table (they come back through
+    insert_blob only for a rule that finished), so a rule that fails or is cancelled leaves
+    no (hash, mtime) pair behind for files it may have replaced."""
+    P = ctx.P
+    n = 0
+    for f in prod(P):
+        if not f.body["span"]["file"].endswith("current.rs"):
+            continue
+        for c in f.calls_to("blob::Blob::from_paths"):
+            n += 1
+            ctx.saw(f)
+            ctx.inst("blob handed out by %s" % f.id, c.where)
+            # the state-supplying closure
+            cl = None
+            if len(c.args) > 1 and c.args[1]["k"] in ("copy", "move"):
+                cid = f.local_ty(c.args[1]["place"]["local"]).get("closure")
+                cl = P.fns.get(cid)
+            if cl is None:
+                raise AnalysisError("idiom not recognised: the states given to Blob::from_paths in %s do not come from a closure literal" % f.id)
+            ro = cl.origins_of_place({"local": 0, "proj": []})
+            took = [o for o in ro if o[0][0] == "call" and o[0][3].split("::")[-1] in ("remove", "remove_entry")]
+            kept = [o for o in ro if o[0][0] == "call" and o[0][3].split("::")[-1] in ("get", "get_mut", "get_key_value", "index")]
+            if kept or not took:
+                ctx.viol((f.id, "states-copied-not-taken"), "the file states handed out with a blob stay in the table: a rule that then fails keeps its old (hash, mtime) pairs although it may have replaced the files, and the next build trusts them", c.where)
+            else:
+                ctx.ok()
+    ctx.need(n, "the function handing out blobs from the file-state table")
